@@ -272,7 +272,7 @@ class AckHarness(Harness):
                         raise Violation(f"message-lost-silently:{name}", f"{m} never delivered and no sender raised; faults={net.log}")
 
 
-FRAME_KINDS = ["syn", "syn2", "ack", "msg", "hdr", "raw", "garbage", "zraw"]  # zraw: payload bytes that happen to be a complete zlib stream (a compressing serde)
+FRAME_KINDS = ["syn", "syn2", "ack", "msg", "hdr", "raw", "garbage", "zraw", "empty"]  # zraw: payload bytes that happen to be a complete zlib stream (a compressing serde)
 
 
 class Framing(Harness):
@@ -304,7 +304,7 @@ class Framing(Harness):
             syn = Syn(idx=1, addr="tcp://tx:9")
             raw = b"\x00\x01payload"
             enc = {"syn": serde.ser_message(syn), "syn2": serde.ser_message(Syn(idx=2, addr="tcp://tx:9")), "ack": serde.ser_message(Ack(idx=5)),
-                   "msg": serde.ser_message(msg), "hdr": pickle.dumps(hdr), "raw": raw, "garbage": b"\x80\x05nonsense", "zraw": __import__("zlib").compress(b"payload bytes of a dataset whose serde compresses" * 2)}
+                   "msg": serde.ser_message(msg), "hdr": pickle.dumps(hdr), "raw": raw, "garbage": b"\x80\x05nonsense", "zraw": __import__("zlib").compress(b"payload bytes of a dataset whose serde compresses" * 2), "empty": b""}
             kinds = [FRAME_KINDS[ch.pick(len(FRAME_KINDS), f"f{i}")] for i in range(params["n"])]
             frames = [enc[k] for k in kinds]
             already = ch.flag("syn_seen_before")
@@ -544,7 +544,55 @@ class DedupPermanent(Harness):
                 raise Violation("syn-not-acknowledged", f"acks for message 0: {acks[:3]}...")
 
 
+class PayloadRoundtrip(Harness):
+    """A dataset payload handed to the real send_data comes out of the real Listener as the same header and the same bytes:
+    empty values, one byte, bytes that look like a pickle / a zlib stream / a Syn, a memoryview, a large value."""
+
+    name = "payload-roundtrip"
+    engine = "E1-crosshair"
+    properties = ("C17", "C07")
+    rule = "one path = (payload value from a palette of boundary / look-alike values, bytes or memoryview, with or without retransmission); non-trivial = all"
+    assumptions = ["fakezmq contract"]
+    outside = ["values beyond a few hundred kB"]
+
+    def shards(self, tier):
+        return [{}]
+
+    def budget(self, tier):
+        return 60.0
+
+    def bounds(self, tier):
+        return {"values": ["empty", "1 byte", "pickled Syn", "pickled header", "zlib stream", "300 kB"], "forms": ["bytes", "memoryview"]}
+
+    def functions(self):
+        return [comms.send_data, comms.Listener._recv_one]
+
+    def body(self, ch, params):
+        with ch.untraced():
+            fakezmq.NET.reset()
+            hdr = DatasetTransmitPayloadHeader(confirm_address="tcp://a:1", confirm_idx=7, ds=DatasetId("t", "0"), deser_fun="cloudpickle.loads")
+            syn = Syn(idx=3, addr="tcp://tx:9")
+            values = [b"", b"\x00", serde.ser_message(syn), pickle.dumps(hdr), __import__("zlib").compress(b"abc" * 50), bytes(range(256)) * 1200]
+            raw = ch.choose(values, "value")
+            value = memoryview(raw) if ch.flag("as_memoryview") else raw
+            lst = comms.Listener("tcp://rx:1")
+            try:
+                comms.send_data("tcp://rx:1", DatasetTransmitPayload(header=hdr, value=value), syn)
+                got = lst.recv_messages(0)
+            except Exception as e:
+                raise Violation(f"payload-transport-raised-{type(e).__name__}", f"{len(raw)} bytes: {e}")
+            ch.note("case", {"bytes": len(raw)})
+            ch.note("nontrivial", True)
+            if len(got) != 1 or not isinstance(got[0], DatasetTransmitPayload) or got[0].header != hdr or bytes(got[0].value) != raw:
+                raise Violation("payload-changed-in-transport", f"{len(raw)} bytes sent, received {[ (type(g).__name__, len(getattr(g, 'value', b''))) for g in got]}")
+            if ch.flag("retransmitted"):
+                comms.send_data("tcp://rx:1", DatasetTransmitPayload(header=hdr, value=value), syn)
+                if lst.recv_messages(0):
+                    raise Violation("retransmission-delivered-again", f"payload of {len(raw)} bytes")
+
+
 register(AckHarness())
+register(PayloadRoundtrip())
 register(RetryWhenBusy())
 register(DedupPermanent())
 register(Framing())
